@@ -4,17 +4,21 @@
 (* with the expected verdict and the expected (part, local index) of every    *)
 (* flat index of the merged store.                                            *)
 EXTENDS Merge, Json
-VARIABLES fault, form, assoc
-gvars == <<mvars, fault, form, assoc>>
+VARIABLES fault, form, assoc, asplit
+gvars == <<mvars, fault, form, assoc, asplit>>
+Reversed(q) == [i \in 1..Len(q) |-> q[Len(q) + 1 - i]]
 Steps(c) == IF Valid(c) THEN 2 + Len(c) + (IF Indexed(c) THEN 1 ELSE 0) ELSE 0
 GInit == /\ MInit
          /\ fault \in 0..Steps(case)
          /\ form \in {"list", "pattern"}
          /\ assoc \in (IF Valid(case) /\ fault = 0 /\ case[1].fs = "A" THEN BOOLEAN ELSE {FALSE})
+         \* the separately merged associated store is made of parts of the same sizes, or of the same flights
+         \* split the other way round (sizes reversed): each merged store finds an index through its OWN size table
+         /\ asplit \in (IF assoc /\ Sizes # Reversed(Sizes) THEN {"same", "resplit"} ELSE {"same"})
 GNext == FALSE /\ UNCHANGED gvars
 GSpec == GInit /\ [][GNext]_gvars
 Expect == [i \in 1..Total |-> <<PartOf(i - 1), LocalOf(i - 1)>>]
-Out == [ins |-> case, fault |-> fault, form |-> form, assoc |-> assoc,
+Out == [ins |-> case, fault |-> fault, form |-> form, assoc |-> assoc, asplit |-> asplit, asizes |-> (IF asplit = "resplit" THEN Reversed(Sizes) ELSE Sizes),
         valid |-> Valid(case), indexed |-> Indexed(case), total |-> Total,
         expect |-> IF Valid(case) THEN Expect ELSE <<>>]
 Emit == PrintT("@@" \o ToJson(Out))
